@@ -54,9 +54,7 @@ func main() {
 			usage()
 		}
 		id, tier := os.Args[2], os.Args[3]
-		if t := os.Getenv("VERIF_TIER"); t == "quick" || t == "thorough" {
-			tier = t
-		}
+		// the tier named on the command line wins; VERIF_TIER only fills in for a missing argument (bin/vcheck)
 		c, ok := checks[id]
 		if !ok {
 			fmt.Fprintf(os.Stderr, "vcheck: check %s is not part of this build\n", id)
